@@ -28,8 +28,12 @@ def run(ctx):
     else:
         mc = []
         for nm, c in (("drop", drop), ("ret", ret), ("reject", q.spec_cfg(maxDepth=2)), ("open", q.spec_cfg())):
-            mc.append((nm + "_lease", c, PROPS, dict(family=("lease", "leasebatch", "deqvar"), horizon=30, maxep=2, maxins=3, timeout=3000)))
-            mc.append((nm + "_oper", c, PROPS, dict(family=("operator", "filter", "admission", "read"), horizon=20, maxep=1, maxins=3, timeout=3000)))
+            mc.append((nm + "_lease", c, PROPS, dict(family=("lease", "leasebatch", "deqvar"), horizon=30, maxep=2, maxins=2, timeout=1500)))
+            mc.append((nm + "_oper", c, PROPS, dict(family=("operator", "filter", "admission", "read"), horizon=20, maxep=1, maxins=2, timeout=1500)))
+        # three ids (measured on the open configuration: 403k distinct states, 92 s); three insertions with two ids and every family
+        # did not finish within 50 min
+        mc.append(("drop3", drop, PROPS, dict(ids=3, family=("lease", "operator"), horizon=20, maxep=1, maxins=3, timeout=1500)))
+        mc.append(("ret3", ret, PROPS, dict(ids=3, family=("lease", "admission"), horizon=20, maxep=1, maxins=3, ticks=(10,), delays=(0,), ttls=(10,), timeout=1500)))
         plan = {
             "mc": mc,
             "gen": [("drop", drop, dict(family=FAM_ALL, horizon=20, maxep=2, maxins=2, pick="insertion"), 1),
@@ -37,6 +41,7 @@ def run(ctx):
                     ("sim", ret, dict(family=FAM_ALL, horizon=200, maxep=3, maxins=6, pick="insertion", ids=3, simulate=3000, depth=40,
                                       ticks=(1, 5, 10, 30), delays=(0, 7)), 1)],
             "drv": [("drv", "all", 3000, 80, dict(big_every=40, churn_every=100))],
+            "gen_cap": 80000,
         }
     q.run_plan(ctx, plan, RULE)
 
